@@ -247,7 +247,8 @@ func (vfs *MemFS) createSymlink(parent *dirNode, name, link string) *symlinkNode
 			uid:   vfs.User().Uid(),
 			gid:   vfs.User().Gid(),
 		},
-		link: link,
+		link:  link,
+		nlink: 1,
 	}
 
 	parent.addChild(name, child)
@@ -552,7 +553,10 @@ func (fn *fileNode) truncate(size int64) {
 
 // delete removes all information from the node.
 func (sn *symlinkNode) delete() {
-	sn.link = ""
+	sn.nlink--
+	if sn.nlink <= 0 {
+		sn.link = ""
+	}
 }
 
 // fillStatFrom returns a MemInfo (implementation of fs.FileInfo) from a symlinkNode named name.
